@@ -1,6 +1,7 @@
 /-
 C07 — the abstract specification: each buffer is an unbounded FIFO byte queue
 (`List Byte`, oldest first).  This is what the property statement describes.
+An operation that reports failure (allocation refused / size not representable) is a no-op.
 -/
 import TboxModel.C07.Model
 namespace Tbox.C07
@@ -21,10 +22,25 @@ def Op.rwcOk : Op → Bool
   | .rwc _ n d => d.length ≤ n
   | _ => true
 
-/-- the FIFO meaning of every operation: new queues and the bytes handed to the reader -/
+/-- every size argument is a `size_t` value -/
+def Op.wf : Op → Bool
+  | .construct _ cap => cap < W
+  | .append _ d => d.length < W
+  | .appendSelf _ off k => off < W ∧ k < W
+  | .reserve _ n => n < W
+  | .rwc _ n d => n < W ∧ d.length < W
+  | .over _ n => n < W
+  | .fetch _ n => n < W
+  | .consume _ n => n < W
+  | _ => true
+
+/-- the FIFO meaning of every (successful) operation: new queues and the bytes handed to the reader -/
 def specStep (s : Spec) : Op → Spec × List Byte
   | .construct i _ => (s.put i [], [])
+  | .defaultCtor i => (s.put i [], [])
   | .append i d => (s.put i (s.get i ++ d), [])
+  | .appendSelf i off k =>
+      if off + k ≤ (s.get i).length then (s.put i (s.get i ++ ((s.get i).drop off).take k), []) else (s, [])
   | .reserve _ _ => (s, [])
   | .rwc i _ d => (s.put i (s.get i ++ d), [])
   | .over _ _ => (s, [])          -- outside the contract, never used by the theorems
@@ -39,18 +55,31 @@ def specStep (s : Spec) : Op → Spec × List Byte
   | .swap i j => ((s.put i (s.get j)).put j (s.get i), [])
   | .reset i => (s.put i [], [])
 
-def specRun (s : Spec) : List Op → Spec × List (List Byte)
+/-- a step of the specification given whether the implementation reported failure -/
+def specStepF (failed : Bool) (s : Spec) (op : Op) : Spec × List Byte :=
+  if failed then (s, []) else specStep s op
+
+def Out.failed (o : Out) : Bool := o.st != .ok
+
+/-- the implementation run: every operation comes with the allocator's answers for it -/
+def run (s : Store) : List (Alloc × Op) → Store × List Out
   | [] => (s, [])
-  | op :: ops =>
-      let (s1, o) := specStep s op
+  | (al, op) :: ops =>
+      let (s1, o) := step al s op
+      let (s2, os) := run s1 ops
+      (s2, o :: os)
+
+/-- the specification run over the same operations, told which of them failed -/
+def specRun (s : Spec) : List (Bool × Op) → Spec × List (List Byte)
+  | [] => (s, [])
+  | (f, op) :: ops =>
+      let (s1, o) := specStepF f s op
       let (s2, os) := specRun s1 ops
       (s2, o :: os)
 
-def run (s : Store) : List Op → Store × List Out
-  | [] => (s, [])
-  | op :: ops =>
-      let (s1, o) := step s op
-      let (s2, os) := run s1 ops
-      (s2, o :: os)
+/-- the operations of a run paired with the failure reports of the implementation -/
+def failures (s : Store) : List (Alloc × Op) → List (Bool × Op)
+  | [] => []
+  | (al, op) :: ops => ((step al s op).2.failed, op) :: failures (step al s op).1 ops
 
 end Tbox.C07
